@@ -7,7 +7,9 @@ CFG = dict(
     harness="c14",
     translators=["tr-bind"],
     # the regenerated tables are compiled with the models: the cases files of the quick set load them
-    model_targets=["Bind/Cases.vo"] + ["gen/Bind_%s_gen.vo" % t for t in _SHARDS],
+    model_targets=["Bind/Cases.vo", "Bind/LitCases.vo"] + ["gen/Bind_%s_gen.vo" % t for t in _SHARDS],
+    # the tables are checked completely on the first run: other seeds cannot find anything new
+    search_seeds=[],
     proof_targets=["Props/C14.vo"],
     props="Props/C14.v",
     harness_timeout=3000,
